@@ -17,7 +17,7 @@ from hypothesis import strategies as st
 
 from .. import boot, gen, observe
 from ..engine import Campaign, Result, ShardOut, Violation, _split, _viol_payload
-from ..spec import Dep, render
+from ..spec import Dep, Hours, render
 
 ID = "C11"
 RULE = (
@@ -26,7 +26,10 @@ RULE = (
     "groups allocated directly, duration / length tasks, gaplength / maxgapduration, contiguous, limits of 0, nested "
     "scenarios) rendered to text. Domain B: valid texts (generated and the repository's 24 fixtures) with 1-6 "
     "token-level corruptions (delete / duplicate / swap tokens or lines, impossible dates, number perturbation, "
-    "truncation, brace imbalance, keyword insertion, macro self- and mutual recursion). Domain C: coverage-guided "
+    "truncation, brace imbalance, keyword insertion, macro self- and mutual recursion). Domain B2: valid texts in which one "
+    "or two numeric literals (durations, efforts, gaps, limits, priorities, efficiencies, rates, the resolution, the "
+    "project length) are replaced by 0, -1, huge, tiny or malformed numbers. Domain A also gives resources malformed "
+    "time-zone strings and tasks several allocate statements. Domain C: coverage-guided "
     "fuzzing (atheris/libFuzzer, instrumenting scriptplan) of parse+schedule with a token dictionary, seeded with the "
     "fixtures and with an empty corpus. Oracle: parse(schedule=False) either rejects - a lark error (a VisitError "
     "only if it wraps ValueError), a ValueError from scriptplan/parser, or an error message followed by SystemExit(1) "
@@ -198,8 +201,12 @@ HOSTILE_LINES = [
     "priority 0", "priority 1000", "priority -5", "complete 50", "scheduling alap", "scheduling asap", "note \"x\"",
     "start 2019-01-01", "start 2031-06-01", "end 2019-01-01", "end 2031-06-01", "end 2025-01-07-10:00",
     "limits { dailymax 0h }", "limits { weeklymax 0.1h }", "allocate nosuchres", "responsible r0",
+    "allocate r0 { alternative r1 }", "allocate r1", "allocate r0, r1 { alternative r2 select minloaded }", "allocate r0 { persistent }", "effort 99999999min",
+    "effort 4h", "length 99999999d", "duration 0.5h", "start 2025-01-06-00:07", "end 2025-01-06",
 ]
-HOSTILE_DEP_OPTS = ["gaplength 2d", "gaplength 500h", "maxgapduration 1h", "gapduration 2000h", "onend", "gapduration 0min", "gaplength 0h"]
+BAD_ZONES = ["Europe/", "Europe//Berlin", "/Europe/Berlin", "../UTC", "zone.tab", "", " ", "Mars/Olympus", "UTC+25", "europe/berlin", "Europe/Berlin\\", "E" * 300]
+HOSTILE_DEP_OPTS = ["gaplength 2d", "gaplength 500h", "maxgapduration 1h", "gapduration 2000h", "onend", "gapduration 0min", "gaplength 0h", "gapduration 99999999h",
+                    "gaplength 99999999d", "gapduration 1y"]
 
 
 @st.composite
@@ -216,10 +223,20 @@ def hostile_texts(draw):
                               gap=draw(st.sampled_from([None, (1, "h"), (3, "d"), (30, "min"), (400, "h")])), onstart=draw(st.booleans())))
         elif k == 2 and t.deps:
             t.extra.append("depends " + ".".join(draw(st.sampled_from(nodes))[0]) + " { " + draw(st.sampled_from(HOSTILE_DEP_OPTS)) + " }")
+    def walk(rs):
+        for r in rs:
+            yield r
+            yield from walk(r.children)
+
+    for r in walk(spec.resources):
+        if draw(st.integers(0, 7)) == 0:  # the grammar takes any string as a zone name
+            r.tz = draw(st.sampled_from(BAD_ZONES))
+            if r.hours is None and not r.children and draw(st.booleans()):
+                r.hours = Hours({d: [(8 * 60, 16 * 60)] for d in range(5)})
     if draw(st.integers(0, 5)) == 0:
         spec.extra_header.append(draw(st.sampled_from(["now 2025-01-08", "timezone \"UTC\"", "dailyworkinghours 6", "yearlyworkingdays 250", "weekstartsmonday", "currency \"USD\""])))
     if draw(st.integers(0, 7)) == 0:
-        spec.dur = draw(st.sampled_from([(1, "d"), (3, "y"), (18, "m"), (1, "w")]))
+        spec.dur = draw(st.sampled_from([(1, "d"), (3, "y"), (18, "m"), (1, "w"), (99999999, "w"), (0, "d")]))
     text = render(spec)
     if draw(st.integers(0, 6)) == 0:
         text = "flags contiguous, hidden\n" + text.replace("task ", "task ", 1)
@@ -296,6 +313,38 @@ def corrupted_texts(draw):
     return text
 
 
+# ---- Domain B2: one hostile number in an otherwise valid project ------------------------------------
+PF_NUM = gen.Profile(resolutions=[15, 30, 60], min_tasks=2, max_tasks=6, max_res=3, depth=3, deps=0.7, gaps=True, subslot=True, calendars=True, limits=True,
+                     task_limits=True, res_groups=True, alap_project=True, alap_task=True, scenarios=True, weeks=(1, 4), max_slots=8, container_deps=True,
+                     priorities=True, rates=True, leaves=True)
+HOSTILE_NUMBERS = ["0", "-1", "99999999", "999999999999", "1e9", "0.0000001", "1000000", "00", "2147483648", "9" * 25, "0.5", "1.5"]
+_NUM_RE = None
+
+
+@st.composite
+def number_texts(draw):
+    """A valid generated project (or a fixture) in which one or two numeric literals - the value of a duration,
+    effort, gap, limit, priority, efficiency, rate, resolution or the project length - are replaced by a
+    hostile number.  Dates and identifiers are left alone."""
+    global _NUM_RE
+    import re
+
+    if _NUM_RE is None:
+        _NUM_RE = re.compile(r"(?<![\w.:\-+\"])(\+?)(\d+(?:\.\d+)?)(?=(?:min|h|d|w|m|y|%)?(?![\w.:\-]))")
+    fx = fixtures()
+    if fx and draw(st.integers(0, 4)) == 0:
+        text = draw(st.sampled_from(fx))
+    else:
+        text = render(draw(gen.project_specs(PF_NUM)))
+    for _ in range(draw(st.integers(1, 2))):
+        ms = [m for m in _NUM_RE.finditer(text)]
+        if not ms:
+            break
+        m = ms[draw(st.integers(0, len(ms) - 1))]
+        text = text[: m.start(2)] + draw(st.sampled_from(HOSTILE_NUMBERS)) + text[m.end(2):]
+    return text
+
+
 # ---- Domain C: atheris ---------------------------------------------------------------------------
 def run_atheris(seed, shard, nshards, out: ShardOut, n):
     """Run the libFuzzer target in a subprocess per shard; internal errors are bucketed by the target and
@@ -365,6 +414,8 @@ def campaigns(tier):
                  describe="grammar-directed hostile projects"),
         Campaign("corrupted", "hyp", evaluate=eval_text, strategy=corrupted_texts, n=1500 if q else 40000, floor_nontrivial=0.1, post=confirm_timeouts,
                  describe="token-level corruptions of generated projects and the repository fixtures"),
+        Campaign("numbers", "hyp", evaluate=eval_text, strategy=number_texts, n=1200 if q else 30000, post=confirm_timeouts,
+                 describe="valid projects in which one or two numeric literals are replaced by a hostile number"),
         Campaign("atheris", "custom", run=run_atheris, evaluate=eval_text, n=16000 if q else 480000, shards=8 if q else 16,
                  describe="coverage-guided fuzzing of parse+schedule (libFuzzer via atheris), fixture-seeded and empty corpus"),
     ]
